@@ -11,28 +11,48 @@ predicate `Spec.progressOK` at every quiescent point of generated runs and sched
 namespace Acts.C01
 open Acts.Ref
 
+/-- a `needs` list that finds nothing in `tm` names, if it is well-formed, a condition branch that is not in `tm` -/
+theorem needs_any (ns cids : List String) (h : (!ns.isEmpty && ns.all (cids.contains ·)) = true) : ns.any (cids.contains ·) = true := by
+  cases ns with
+  | nil => simp at h
+  | cons n ns =>
+    simp only [List.isEmpty_cons, Bool.not_false, Bool.true_and, List.all_cons, Bool.and_eq_true] at h
+    simp only [List.any_cons, h.1, Bool.true_or]
+
+theorem needs_names_unfinished (ns cids tm : List String) (h1 : (!ns.isEmpty && ns.all (cids.contains ·)) = true)
+    (h2 : ns.any (tm.contains ·) = false) : ∃ n, n ∈ cids ∧ n ∉ tm := by
+  obtain ⟨n, hn, hc⟩ := List.any_eq_true.mp (needs_any ns cids h1)
+  refine ⟨n, by simpa using hc, ?_⟩
+  intro hin
+  have : ns.any (tm.contains ·) = true := List.any_eq_true.mpr ⟨n, hn, by simpa using hin⟩
+  rw [h2] at this; cases this
+
 mutual
 /-- **progress**: a started construct is finished, or it is waiting on at least one interrupt -/
-theorem progress_step (a : Answered) (s : RStep) : doneStep a s = true ∨ opensStep a s ≠ [] := by
+theorem progress_step (a : Answered) (s : RStep) (hw : wfStep s = true) : doneStep a s = true ∨ opensStep a s ≠ [] := by
   cases s with
   | mk i c bs as =>
     simp only [doneStep, opensStep]
+    simp only [wfStep] at hw
     cases c with
     | false => simp
     | true =>
       simp only [Bool.not_true, Bool.false_eq_true, ↓reduceIte, Bool.and_eq_true]
-      rcases progress_branches a (anyCondHolds bs) bs with hb | hb
+      rcases progress_branches a (anyCondHolds bs) (termIds a bs) (condIds bs) bs hw with hb | hb | ⟨n, hn1, hn2⟩
       · rcases progress_acts a as with ha | ha
         · exact Or.inl ⟨hb, ha⟩
         · right; intro h; exact ha (List.append_eq_nil_iff.mp h).2
       · right; intro h; exact hb (List.append_eq_nil_iff.mp h).1
-theorem progress_steps (a : Answered) (ss : List RStep) : doneSteps a ss = true ∨ opensSteps a ss ≠ [] := by
+      · right; intro h
+        exact stuck_needs_opens a (anyCondHolds bs) (termIds a bs) (condIds bs) bs hw n hn1 hn2 (List.append_eq_nil_iff.mp h).1
+theorem progress_steps (a : Answered) (ss : List RStep) (hw : wfSteps ss = true) : doneSteps a ss = true ∨ opensSteps a ss ≠ [] := by
   cases ss with
   | nil => simp [doneSteps]
   | cons s ss =>
+    simp only [wfSteps, Bool.and_eq_true] at hw
     simp only [doneSteps, opensSteps, Bool.and_eq_true]
-    rcases progress_step a s with hs | hs
-    · simp only [hs, ↓reduceIte, true_and]; exact progress_steps a ss
+    rcases progress_step a s hw.1 with hs | hs
+    · simp only [hs, ↓reduceIte, true_and]; exact progress_steps a ss hw.2
     · right
       cases hd : doneStep a s with
       | true => exact absurd (opens_of_done_step a s hd) hs
@@ -45,7 +65,7 @@ theorem opens_of_done_step (a : Answered) (s : RStep) (h : doneStep a s = true) 
     | false => simp
     | true =>
       simp only [Bool.not_true, Bool.false_eq_true, ↓reduceIte, Bool.and_eq_true] at h ⊢
-      rw [opens_of_done_branches a _ bs h.1, opens_of_done_acts a as h.2]; rfl
+      rw [opens_of_done_branches a _ _ bs h.1, opens_of_done_acts a as h.2]; rfl
 theorem opens_of_done_steps (a : Answered) (ss : List RStep) (h : doneSteps a ss = true) : opensSteps a ss = [] := by
   cases ss with
   | nil => rfl
@@ -53,8 +73,8 @@ theorem opens_of_done_steps (a : Answered) (ss : List RStep) (h : doneSteps a ss
     simp only [doneSteps, Bool.and_eq_true] at h
     simp only [opensSteps, h.1, ↓reduceIte]
     exact opens_of_done_steps a ss h.2
-theorem opens_of_done_branch (a : Answered) (sc : Bool) (b : RBranch) (h : doneBranch a sc b = true) :
-    opensBranch a sc b = [] := by
+theorem opens_of_done_branch (a : Answered) (sc : Bool) (tm : List String) (b : RBranch) (h : doneBranch a sc tm b = true) :
+    opensBranch a sc tm b = [] := by
   cases b with
   | mk i g ss =>
     cases g with
@@ -68,13 +88,18 @@ theorem opens_of_done_branch (a : Answered) (sc : Bool) (b : RBranch) (h : doneB
       cases sc with
       | true => simp
       | false => simp only [Bool.false_eq_true, ↓reduceIte] at h ⊢; exact opens_of_done_steps a ss h
-theorem opens_of_done_branches (a : Answered) (sc : Bool) (bs : List RBranch) (h : doneBranches a sc bs = true) :
-    opensBranches a sc bs = [] := by
+    | needs ns =>
+      simp only [doneBranch, opensBranch] at h ⊢
+      cases hr : ns.any (tm.contains ·) with
+      | true => simp only [hr, ↓reduceIte] at h ⊢; exact opens_of_done_steps a ss h
+      | false => rw [hr] at h; simp at h
+theorem opens_of_done_branches (a : Answered) (sc : Bool) (tm : List String) (bs : List RBranch) (h : doneBranches a sc tm bs = true) :
+    opensBranches a sc tm bs = [] := by
   cases bs with
   | nil => rfl
   | cons b bs =>
     simp only [doneBranches, Bool.and_eq_true] at h
-    simp only [opensBranches, opens_of_done_branch a sc b h.1, opens_of_done_branches a sc bs h.2, List.append_nil]
+    simp only [opensBranches, opens_of_done_branch a sc tm b h.1, opens_of_done_branches a sc tm bs h.2, List.append_nil]
 theorem opens_of_done_acts (a : Answered) (as : List RAct) (h : doneActs a as = true) : opensActs a as = [] := by
   cases as with
   | nil => rfl
@@ -82,31 +107,103 @@ theorem opens_of_done_acts (a : Answered) (as : List RAct) (h : doneActs a as = 
     simp only [doneActs, Bool.and_eq_true] at h
     simp only [opensActs, h.1, ↓reduceIte]
     exact opens_of_done_acts a xs h.2
-theorem progress_branch (a : Answered) (sc : Bool) (b : RBranch) : doneBranch a sc b = true ∨ opensBranch a sc b ≠ [] := by
+/-- a branch is finished, or waits on an interrupt, or is a `needs` branch none of whose needed siblings has ended yet -/
+theorem progress_branch (a : Answered) (sc : Bool) (tm cids : List String) (b : RBranch) (hw : wfBranch cids b = true) :
+    doneBranch a sc tm b = true ∨ opensBranch a sc tm b ≠ [] ∨ (∃ n, n ∈ cids ∧ n ∉ tm) := by
   cases b with
   | mk i g ss =>
+    simp only [wfBranch, Bool.and_eq_true] at hw
     cases g with
     | cond hc =>
       simp only [doneBranch, opensBranch]
       cases hc with
       | false => simp
-      | true => simp only [↓reduceIte]; exact progress_steps a ss
+      | true =>
+        simp only [↓reduceIte]
+        rcases progress_steps a ss hw.2 with h | h
+        · exact Or.inl h
+        · exact Or.inr (Or.inl h)
     | otherwise =>
       simp only [doneBranch, opensBranch]
       cases sc with
       | true => simp
-      | false => simp only [Bool.false_eq_true, ↓reduceIte]; exact progress_steps a ss
-theorem progress_branches (a : Answered) (sc : Bool) (bs : List RBranch) :
-    doneBranches a sc bs = true ∨ opensBranches a sc bs ≠ [] := by
+      | false =>
+        simp only [Bool.false_eq_true, ↓reduceIte]
+        rcases progress_steps a ss hw.2 with h | h
+        · exact Or.inl h
+        · exact Or.inr (Or.inl h)
+    | needs ns =>
+      simp only [doneBranch, opensBranch]
+      cases hr : ns.any (tm.contains ·) with
+      | true =>
+        simp only [↓reduceIte]
+        rcases progress_steps a ss hw.2 with h | h
+        · exact Or.inl h
+        · exact Or.inr (Or.inl h)
+      | false =>
+        right; right
+        exact needs_names_unfinished ns cids tm hw.1 hr
+theorem progress_branches (a : Answered) (sc : Bool) (tm cids : List String) (bs : List RBranch) (hw : wfBranches cids bs = true) :
+    doneBranches a sc tm bs = true ∨ opensBranches a sc tm bs ≠ [] ∨ (∃ n, n ∈ cids ∧ n ∉ tm) := by
   cases bs with
   | nil => simp [doneBranches]
   | cons b bs =>
+    simp only [wfBranches, Bool.and_eq_true] at hw
     simp only [doneBranches, opensBranches, Bool.and_eq_true]
-    rcases progress_branch a sc b with hb | hb
-    · rcases progress_branches a sc bs with hr | hr
+    rcases progress_branch a sc tm cids b hw.1 with hb | hb | hb
+    · rcases progress_branches a sc tm cids bs hw.2 with hr | hr | hr
       · exact Or.inl ⟨hb, hr⟩
-      · right; intro h; exact hr (List.append_eq_nil_iff.mp h).2
-    · right; intro h; exact hb (List.append_eq_nil_iff.mp h).1
+      · right; left; intro h; exact hr (List.append_eq_nil_iff.mp h).2
+      · exact Or.inr (Or.inr hr)
+    · right; left; intro h; exact hb (List.append_eq_nil_iff.mp h).1
+    · exact Or.inr (Or.inr hb)
+/-- a condition branch of the list that has not ended is waiting on an interrupt: so a `needs` branch that is still waiting for it
+never strands the step -/
+theorem stuck_needs_opens (a : Answered) (sc : Bool) (tm cids : List String) (bs : List RBranch) (hw : wfBranches cids bs = true)
+    (n : String) (h1 : n ∈ condIds bs) (h2 : n ∉ termIds a bs) : opensBranches a sc tm bs ≠ [] := by
+  cases bs with
+  | nil => simp [condIds] at h1
+  | cons b bs =>
+    simp only [wfBranches, Bool.and_eq_true] at hw
+    simp only [termIds, List.mem_append, not_or] at h2
+    simp only [opensBranches]
+    cases b with
+    | mk i g ss =>
+      cases g with
+      | cond hc =>
+        by_cases hi : i = n
+        · subst hi
+          cases hc with
+          | false => simp [termId] at h2
+          | true =>
+            cases hd : doneSteps a ss with
+            | true => simp [termId, hd] at h2
+            | false =>
+              have hwss : wfSteps ss = true := by
+                have := hw.1; simp only [wfBranch, Bool.and_eq_true] at this; exact this.2
+              rcases progress_steps a ss hwss with h | h
+              · rw [hd] at h; cases h
+              · intro he
+                have := (List.append_eq_nil_iff.mp he).1
+                simp only [opensBranch, ↓reduceIte] at this
+                exact h this
+        · have h1' : n ∈ condIds bs := by
+            simp only [condIds, List.filter_cons, isCondBranch, RBranch.guard, ↓reduceIte, List.map_cons, List.mem_cons, RBranch.id] at h1
+            rcases h1 with h | h
+            · exact absurd h.symm hi
+            · exact h
+          intro he
+          exact stuck_needs_opens a sc tm cids bs hw.2 n h1' h2.2 (List.append_eq_nil_iff.mp he).2
+      | otherwise =>
+        have h1' : n ∈ condIds bs := by
+          simpa [condIds, List.filter_cons, isCondBranch, RBranch.guard] using h1
+        intro he
+        exact stuck_needs_opens a sc tm cids bs hw.2 n h1' h2.2 (List.append_eq_nil_iff.mp he).2
+      | needs ns =>
+        have h1' : n ∈ condIds bs := by
+          simpa [condIds, List.filter_cons, isCondBranch, RBranch.guard] using h1
+        intro he
+        exact stuck_needs_opens a sc tm cids bs hw.2 n h1' h2.2 (List.append_eq_nil_iff.mp he).2
 theorem progress_acts (a : Answered) (as : List RAct) : doneActs a as = true ∨ opensActs a as ≠ [] := by
   cases as with
   | nil => simp [doneActs]
@@ -127,7 +224,7 @@ theorem progress_acts (a : Answered) (as : List RAct) : doneActs a as = true ∨
 end
 
 /-- **C01 for the reference interpretation**: an unfinished workflow always has an open interrupt -/
-theorem progress (a : Answered) (w : RWorkflow) : w.done a = true ∨ w.opens a ≠ [] := progress_steps a w.steps
+theorem progress (a : Answered) (w : RWorkflow) (hw : w.wf = true) : w.done a = true ∨ w.opens a ≠ [] := progress_steps a w.steps hw
 
 mutual
 /-- every open interrupt is an unanswered one (so answering it changes the state) -/
@@ -141,7 +238,7 @@ theorem opens_unanswered_step (a : Answered) (s : RStep) : ∀ i ∈ opensStep a
     | true =>
       simp only [Bool.not_true, Bool.false_eq_true, ↓reduceIte, List.mem_append] at hi
       rcases hi with hi | hi
-      · exact opens_unanswered_branches a _ bs i hi
+      · exact opens_unanswered_branches a _ _ bs i hi
       · exact opens_unanswered_acts a as i hi
 theorem opens_unanswered_steps (a : Answered) (ss : List RStep) : ∀ i ∈ opensSteps a ss, a i = false := by
   cases ss with
@@ -152,7 +249,7 @@ theorem opens_unanswered_steps (a : Answered) (ss : List RStep) : ∀ i ∈ open
     split at hi
     · exact opens_unanswered_steps a ss i hi
     · exact opens_unanswered_step a s i hi
-theorem opens_unanswered_branch (a : Answered) (sc : Bool) (b : RBranch) : ∀ i ∈ opensBranch a sc b, a i = false := by
+theorem opens_unanswered_branch (a : Answered) (sc : Bool) (tm : List String) (b : RBranch) : ∀ i ∈ opensBranch a sc tm b, a i = false := by
   cases b with
   | mk j g ss =>
     intro i hi
@@ -167,16 +264,21 @@ theorem opens_unanswered_branch (a : Answered) (sc : Bool) (b : RBranch) : ∀ i
       split at hi
       · cases hi
       · exact opens_unanswered_steps a ss i hi
-theorem opens_unanswered_branches (a : Answered) (sc : Bool) (bs : List RBranch) :
-    ∀ i ∈ opensBranches a sc bs, a i = false := by
+    | needs ns =>
+      simp only [opensBranch] at hi
+      split at hi
+      · exact opens_unanswered_steps a ss i hi
+      · cases hi
+theorem opens_unanswered_branches (a : Answered) (sc : Bool) (tm : List String) (bs : List RBranch) :
+    ∀ i ∈ opensBranches a sc tm bs, a i = false := by
   cases bs with
   | nil => intro i hi; cases hi
   | cons b bs =>
     intro i hi
     simp only [opensBranches, List.mem_append] at hi
     rcases hi with hi | hi
-    · exact opens_unanswered_branch a sc b i hi
-    · exact opens_unanswered_branches a sc bs i hi
+    · exact opens_unanswered_branch a sc tm b i hi
+    · exact opens_unanswered_branches a sc tm bs i hi
 theorem opens_unanswered_acts (a : Answered) (as : List RAct) : ∀ i ∈ opensActs a as, a i = false := by
   cases as with
   | nil => intro i hi; cases hi
@@ -196,27 +298,72 @@ end
 
 mutual
 /-- **a process whose every interrupt is answered finishes** -/
-theorem all_answered_done_step (s : RStep) : doneStep (fun _ => true) s = true := by
+theorem all_answered_done_step (s : RStep) (hw : wfStep s = true) : doneStep (fun _ => true) s = true := by
   cases s with
   | mk j c bs as =>
+    simp only [wfStep] at hw
     simp only [doneStep]
     cases c with
     | false => simp
-    | true => simp [all_answered_done_branches _ bs, all_answered_done_acts as]
-theorem all_answered_done_steps (ss : List RStep) : doneSteps (fun _ => true) ss = true := by
+    | true =>
+      have hsub : ∀ n, n ∈ condIds bs → n ∈ termIds (fun _ => true) bs := fun n hn => all_answered_term bs (condIds bs) hw n hn
+      simp [all_answered_done_branches _ _ (condIds bs) bs hw hsub, all_answered_done_acts as]
+theorem all_answered_done_steps (ss : List RStep) (hw : wfSteps ss = true) : doneSteps (fun _ => true) ss = true := by
   cases ss with
   | nil => rfl
-  | cons s ss => simp [doneSteps, all_answered_done_step s, all_answered_done_steps ss]
-theorem all_answered_done_branch (sc : Bool) (b : RBranch) : doneBranch (fun _ => true) sc b = true := by
+  | cons s ss =>
+    simp only [wfSteps, Bool.and_eq_true] at hw
+    simp [doneSteps, all_answered_done_step s hw.1, all_answered_done_steps ss hw.2]
+theorem all_answered_done_branch (sc : Bool) (tm cids : List String) (b : RBranch) (hw : wfBranch cids b = true)
+    (hsub : ∀ n, n ∈ cids → n ∈ tm) : doneBranch (fun _ => true) sc tm b = true := by
   cases b with
   | mk j g ss =>
+    simp only [wfBranch, Bool.and_eq_true] at hw
     cases g with
-    | cond hc => cases hc <;> simp [doneBranch, all_answered_done_steps ss]
-    | otherwise => cases sc <;> simp [doneBranch, all_answered_done_steps ss]
-theorem all_answered_done_branches (sc : Bool) (bs : List RBranch) : doneBranches (fun _ => true) sc bs = true := by
+    | cond hc => cases hc <;> simp [doneBranch, all_answered_done_steps ss hw.2]
+    | otherwise => cases sc <;> simp [doneBranch, all_answered_done_steps ss hw.2]
+    | needs ns =>
+      have hr : ns.any (tm.contains ·) = true := by
+        obtain ⟨n, hn, hc⟩ := List.any_eq_true.mp (needs_any ns cids hw.1)
+        exact List.any_eq_true.mpr ⟨n, hn, by simpa using hsub n (by simpa using hc)⟩
+      simp only [doneBranch, hr, ↓reduceIte]
+      exact all_answered_done_steps ss hw.2
+theorem all_answered_done_branches (sc : Bool) (tm cids : List String) (bs : List RBranch) (hw : wfBranches cids bs = true)
+    (hsub : ∀ n, n ∈ cids → n ∈ tm) : doneBranches (fun _ => true) sc tm bs = true := by
   cases bs with
   | nil => rfl
-  | cons b bs => simp [doneBranches, all_answered_done_branch sc b, all_answered_done_branches sc bs]
+  | cons b bs =>
+    simp only [wfBranches, Bool.and_eq_true] at hw
+    simp [doneBranches, all_answered_done_branch sc tm cids b hw.1 hsub, all_answered_done_branches sc tm cids bs hw.2 hsub]
+/-- with every interrupt answered every condition branch has ended -/
+theorem all_answered_term (bs : List RBranch) (cids : List String) (hw : wfBranches cids bs = true) :
+    ∀ n, n ∈ condIds bs → n ∈ termIds (fun _ => true) bs := by
+  cases bs with
+  | nil => intro n hn; simp [condIds] at hn
+  | cons b bs =>
+    simp only [wfBranches, Bool.and_eq_true] at hw
+    intro n hn
+    simp only [termIds, List.mem_append]
+    cases b with
+    | mk i g ss =>
+      have hwss : wfSteps ss = true := by
+        have := hw.1; simp only [wfBranch, Bool.and_eq_true] at this; exact this.2
+      cases g with
+      | cond hc =>
+        simp only [condIds, List.filter_cons, isCondBranch, RBranch.guard, ↓reduceIte, List.map_cons, List.mem_cons, RBranch.id] at hn
+        rcases hn with h | h
+        · left
+          subst h
+          cases hc with
+          | false => simp [termId]
+          | true => simp [termId, all_answered_done_steps ss hwss]
+        · exact Or.inr (all_answered_term bs cids hw.2 n h)
+      | otherwise =>
+        have hn' : n ∈ condIds bs := by simpa [condIds, List.filter_cons, isCondBranch, RBranch.guard] using hn
+        exact Or.inr (all_answered_term bs cids hw.2 n hn')
+      | needs ns =>
+        have hn' : n ∈ condIds bs := by simpa [condIds, List.filter_cons, isCondBranch, RBranch.guard] using hn
+        exact Or.inr (all_answered_term bs cids hw.2 n hn')
 theorem all_answered_done_acts (as : List RAct) : doneActs (fun _ => true) as = true := by
   cases as with
   | nil => rfl
@@ -226,7 +373,7 @@ theorem all_answered_done_acts (as : List RAct) : doneActs (fun _ => true) as = 
     | msg j c => simp [doneActs, doneAct, all_answered_done_acts xs]
 end
 
-theorem all_answered_finishes (w : RWorkflow) : w.done (fun _ => true) = true := all_answered_done_steps w.steps
+theorem all_answered_finishes (w : RWorkflow) (hw : w.wf = true) : w.done (fun _ => true) = true := all_answered_done_steps w.steps hw
 
 mutual
 /-- answering more interrupts never un-finishes anything -/
@@ -239,7 +386,7 @@ theorem done_mono_step (a a' : Answered) (h : ∀ i, a i = true → a' i = true)
     | false => simp
     | true =>
       simp only [Bool.not_true, Bool.false_eq_true, ↓reduceIte, Bool.and_eq_true]
-      exact fun hd => ⟨done_mono_branches a a' h _ bs hd.1, done_mono_acts a a' h as hd.2⟩
+      exact fun hd => ⟨done_mono_branches a a' h _ _ _ (term_mono a a' h bs) bs hd.1, done_mono_acts a a' h as hd.2⟩
 theorem done_mono_steps (a a' : Answered) (h : ∀ i, a i = true → a' i = true) (ss : List RStep) :
     doneSteps a ss = true → doneSteps a' ss = true := by
   cases ss with
@@ -247,20 +394,59 @@ theorem done_mono_steps (a a' : Answered) (h : ∀ i, a i = true → a' i = true
   | cons s ss =>
     simp only [doneSteps, Bool.and_eq_true]
     exact fun hd => ⟨done_mono_step a a' h s hd.1, done_mono_steps a a' h ss hd.2⟩
-theorem done_mono_branch (a a' : Answered) (h : ∀ i, a i = true → a' i = true) (sc : Bool) (b : RBranch) :
-    doneBranch a sc b = true → doneBranch a' sc b = true := by
+theorem done_mono_branch (a a' : Answered) (h : ∀ i, a i = true → a' i = true) (sc : Bool) (tm tm' : List String)
+    (htm : ∀ n, n ∈ tm → n ∈ tm') (b : RBranch) :
+    doneBranch a sc tm b = true → doneBranch a' sc tm' b = true := by
   cases b with
   | mk j g ss =>
     cases g with
     | cond hc => cases hc <;> simp only [doneBranch, ↓reduceIte, Bool.false_eq_true] <;> first | exact done_mono_steps a a' h ss | simp
     | otherwise => cases sc <;> simp only [doneBranch, ↓reduceIte, Bool.false_eq_true] <;> first | exact done_mono_steps a a' h ss | simp
-theorem done_mono_branches (a a' : Answered) (h : ∀ i, a i = true → a' i = true) (sc : Bool) (bs : List RBranch) :
-    doneBranches a sc bs = true → doneBranches a' sc bs = true := by
+    | needs ns =>
+      simp only [doneBranch]
+      cases hr : ns.any (tm.contains ·) with
+      | false => simp
+      | true =>
+        have hr' : ns.any (tm'.contains ·) = true := by
+          obtain ⟨n, hn, hc⟩ := List.any_eq_true.mp hr
+          exact List.any_eq_true.mpr ⟨n, hn, by simpa using htm n (by simpa using hc)⟩
+        simp only [hr', ↓reduceIte]
+        exact done_mono_steps a a' h ss
+theorem done_mono_branches (a a' : Answered) (h : ∀ i, a i = true → a' i = true) (sc : Bool) (tm tm' : List String)
+    (htm : ∀ n, n ∈ tm → n ∈ tm') (bs : List RBranch) :
+    doneBranches a sc tm bs = true → doneBranches a' sc tm' bs = true := by
   cases bs with
   | nil => simp [doneBranches]
   | cons b bs =>
     simp only [doneBranches, Bool.and_eq_true]
-    exact fun hd => ⟨done_mono_branch a a' h sc b hd.1, done_mono_branches a a' h sc bs hd.2⟩
+    exact fun hd => ⟨done_mono_branch a a' h sc tm tm' htm b hd.1, done_mono_branches a a' h sc tm tm' htm bs hd.2⟩
+/-- answering more interrupts never re-opens a condition branch that had ended -/
+theorem term_mono (a a' : Answered) (h : ∀ i, a i = true → a' i = true) (bs : List RBranch) :
+    ∀ n, n ∈ termIds a bs → n ∈ termIds a' bs := by
+  cases bs with
+  | nil => intro n hn; exact hn
+  | cons b bs =>
+    intro n hn
+    simp only [termIds, List.mem_append] at hn ⊢
+    rcases hn with hn | hn
+    · left
+      cases b with
+      | mk i g ss =>
+        cases g with
+        | cond hc =>
+          cases hc with
+          | false => simpa [termId] using hn
+          | true =>
+            simp only [termId, ↓reduceIte] at hn ⊢
+            cases hd : doneSteps a ss with
+            | false => simp [hd] at hn
+            | true =>
+              simp only [hd, ↓reduceIte] at hn
+              simp only [done_mono_steps a a' h ss hd, ↓reduceIte]
+              exact hn
+        | otherwise => simp [termId] at hn
+        | needs ns => simp [termId] at hn
+    · exact Or.inr (term_mono a a' h bs n hn)
 theorem done_mono_acts (a a' : Answered) (h : ∀ i, a i = true → a' i = true) (as : List RAct) :
     doneActs a as = true → doneActs a' as = true := by
   cases as with
@@ -290,5 +476,17 @@ def exW : RWorkflow := ⟨"w", [.mk "s1" true [.mk "b1" (.cond true) [.mk "s2" t
   .mk "s5" true [] [.irq "a5" true]]⟩
 example : exW.opens (fun i => i == "a1") = ["a2"] ∧ exW.done (fun i => i == "a1") = false := by decide
 example : exW.opens (fun i => i == "a1" || i == "a2") = ["a5"] := by decide
+
+/-- non-vacuity with `needs`: the workflow is well-formed, `b2` waits for `b1`; nothing answered → the open interrupt is `a1`; after it `a2` -/
+def exN : RWorkflow := ⟨"w", [.mk "s1" true [.mk "b1" (.cond true) [.mk "s2" true [] [.irq "a1" true]],
+  .mk "b2" (.needs ["b1"]) [.mk "s3" true [] [.irq "a2" true]]] []]⟩
+example : exN.wf = true ∧ exN.opens (fun _ => false) = ["a1"] ∧ exN.opens (fun i => i == "a1") = ["a2"] ∧
+    exN.done (fun i => i == "a1" || i == "a2") = true := by decide
+
+/-- the hypothesis of `progress` is needed: a `needs` list that names no condition branch strands the interpretation as it strands the engine
+(the recorded wait-cycle finding) -/
+example : (⟨"w", [.mk "s1" true [.mk "b1" .otherwise [], .mk "b2" (.needs ["b1"]) []] []]⟩ : RWorkflow).wf = false ∧
+    (⟨"w", [.mk "s1" true [.mk "b1" .otherwise [], .mk "b2" (.needs ["b1"]) []] []]⟩ : RWorkflow).done (fun _ => true) = false ∧
+    (⟨"w", [.mk "s1" true [.mk "b1" .otherwise [], .mk "b2" (.needs ["b1"]) []] []]⟩ : RWorkflow).opens (fun _ => true) = [] := by decide
 
 end Acts.C01
